@@ -46,7 +46,9 @@ def snapshot(obj, depth=0):
     if isinstance(obj, (list, tuple)):
         return ("l" if isinstance(obj, list) else "t", tuple(snapshot(v, depth + 1) for v in obj))
     if attrs.has(type(obj)):
-        return ("o", type(obj).__name__, tuple((a.name, snapshot(getattr(obj, a.name), depth + 1)) for a in attrs.fields(type(obj))))
+        # private fields of IOData (_atcorenums, _charge, _nelec, _spinpol) are observed through their public properties:
+        # a lazily filled default core charge is, by the statement of C09/C15, not a difference
+        return ("o", type(obj).__name__, tuple((a.name, snapshot(getattr(obj, a.name.lstrip("_")), depth + 1)) for a in attrs.fields(type(obj))))
     return ("r", repr(obj))
 
 
